@@ -597,6 +597,7 @@ type Clause struct {
 	Line    int
 	File    string
 	Trusted bool // assumed at call sites, not checked against the body (reported as an assumption)
+	Private bool // "proves": checked against the body like an ensures clause, but not handed to callers (keeps two-variable facts nobody needs out of their contexts)
 }
 
 type LoopContract struct {
@@ -734,14 +735,19 @@ func (cs *ContractSet) ParseContractText(pkgPath, file, text string) error {
 			}
 			curLoop = nil
 			pending = nil
-		case "requires", "ensures", "trusted-ensures":
+		case "requires", "ensures", "trusted-ensures", "proves":
 			if cur == nil {
 				return fmt.Errorf("%s:%d: clause outside func", file, ln+1)
 			}
-			c, err := mk(strings.TrimPrefix(base, "trusted-"))
+			kind := strings.TrimPrefix(base, "trusted-")
+			if kind == "proves" {
+				kind = "ensures"
+			}
+			c, err := mk(kind)
 			if err != nil {
 				return err
 			}
+			c.Private = base == "proves"
 			if base == "trusted-ensures" {
 				c.Trusted = true
 				cs.Assumes++
